@@ -368,13 +368,14 @@ def all_items():
     for m in modem_specs(max_order=16):
         if m["name"] in FRAME_MODEMS and (TIER == "thorough" or m["name"] in FRAME_QUICK):
             items.append(dict(type="soft-frame", modem=m, frame=3, window=[0, 1, 2], config=f"{m['name']} soft frame 3"))
-            items.append(dict(type="soft-frame", modem=m, frame=1030, window=[0, 1024, 1029], config=f"{m['name']} soft frame 1030"))
+            if TIER == "thorough" or m["name"] in FRAME_QUICK[:3]:
+                items.append(dict(type="soft-frame", modem=m, frame=1030, window=[0, 1024, 1029], config=f"{m['name']} soft frame 1030"))
     items.append(dict(selftest=True, config="selftest"))
     return items
 
 
-FRAME_QUICK = ("PSK4(gray=True)", "QAM16(gray=True,normalize=True)", "BPSK")
-FRAME_MODEMS = FRAME_QUICK + ("QPSK(normalize=True)", "PSK8(gray=True)", "PSK8(gray=False)", "PAM4(gray=True,normalize=True)", "QAM4(gray=True,normalize=True)", "PSK16(gray=True)")
+FRAME_QUICK = ("PSK4(gray=True)", "QAM16(gray=True,normalize=True)", "BPSK", "QPSK(normalize=True)", "PAM4(gray=True,normalize=True)")
+FRAME_MODEMS = FRAME_QUICK + ("QPSK(normalize=False)", "PSK8(gray=True)", "PSK8(gray=False)", "QAM4(gray=True,normalize=True)", "PSK16(gray=True)", "QAM16(gray=False,normalize=False)", "PAM8(gray=True,normalize=True)")
 
 
 def replay(body):
